@@ -245,6 +245,16 @@ theorem veltkamp_split_utils (q : QFmt) (r : ℚ → ℚ) (hr : IsRN q r) (f : F
       xh + xl = (k : ℚ) * 2 ^ e ∧ Mult (e + s) xh ∧ |xh| ≤ 2 ^ q.p * 2 ^ e ∧ Mult e xl ∧ |xl| ≤ 2 ^ (e + s) / 2 :=
   EFT.splitVU_prog hr f cb hC hs1 hsp hk1 hk2 he
 
+/-- **The splitter is exact on EVERY representable number** — normal, subnormal and zero, both codings
+(`fpa.split_veltkamp`, `utils.split_veltkamp`), every precision, emin and round-to-nearest, 1 ≤ s < p, absent overflow:
+xh + xl = x.  (The half-width bounds are stated for normal x in `veltkamp_split`; for a subnormal x they hold relative to
+its normalised form, `FPQ.veltkamp_gen`.) -/
+theorem veltkamp_split_every_finite (q : QFmt) (r : ℚ → ℚ) (hr : IsRN q r) (f : Fmt) (cb : Nat) (s : ℕ)
+    (hC : (decode f cb).toRat? = some (2 ^ s + 1)) (hs1 : 1 ≤ s) (hsp : s < q.p) (x : ℚ) (hx : Rep q x) :
+    (∃ xh xl : ℚ, evalQ f r (splitV cb) splitVOuts [x] = some [xh, xl] ∧ xh + xl = x) ∧
+    (∃ xh xl : ℚ, evalQ f r (splitVU cb) splitVOuts [x] = some [xh, xl] ∧ xh + xl = x) :=
+  EFT.splitV_all hr f cb hC hs1 hsp hx
+
 /-- **Dekker's product** (`fpa.mul_dekker(x, y, scale=False, fix_overflow=False)`, C = 2^s + 1):
 for every precision with p ≤ 2s ≤ p + 2 and s + 2 ≤ p (s = ⌈p/2⌉ qualifies for every p ≥ 4), every
 emin, any round-to-nearest, all normal x = kx·2^ex, y = ky·2^ey whose product's error term cannot
